@@ -2,7 +2,10 @@
 // Oracle: the round trip itself (deep equality, floats bitwise) over typed models that instantiate the library's own templates.
 // C18 — loading into a populated target equals loading into a fresh one — is decided by the same cases (prior value generated too).
 // Build with -DC01_ARCH=<0 msgpack|1 json|2 xml|3 csv> and -DC01_GROUP=<0..2> (compile-time split only).
-#include "common/models.h"
+#ifdef C01_GROUP
+#define MODEL_GROUP C01_GROUP
+#endif
+#include "common/model_types.h"
 
 using namespace arch;
 using namespace mdl;
@@ -27,44 +30,9 @@ using A = XmlArchive; constexpr int ARCH = XML;
 using A = CsvArchive; constexpr int ARCH = CSV;
 #endif
 
-template <class T> struct Tag { using type = T; };
 
 // member position: the value under a key inside an object
 template <class T> struct Holder { int before = 7; T v{}; int after = 9; template <class Ar> void Serialize(Ar& a) { a << KeyValue("before", before) << KeyValue("v", v) << KeyValue("after", after); } };
-
-using VecInt = std::vector<int>; using VecStr = std::vector<std::string>; using VecBool = std::vector<bool>; using VecPt = std::vector<Pt>; using VecVecInt = std::vector<std::vector<int>>; using Bytes = std::vector<uint8_t>; using Chars = std::vector<char>; using VecBytes = std::vector<std::vector<uint8_t>>;
-using VecOptInt = std::vector<std::optional<int>>; using VecDbl = std::vector<double>; using VecU16 = std::vector<std::u16string>;
-using A3 = std::array<int, 3>; using A2Str = std::array<std::string, 2>;
-using MapSI = std::map<std::string, int>; using MapIS = std::map<int, std::string>; using MapDbl = std::map<double, int>; using MapU64 = std::map<uint64_t, Pt>; using MapI8 = std::map<int8_t, int>; using MapEnum = std::map<Color, int>; using MapWs = std::map<std::wstring, int>; using MapU16 = std::map<std::u16string, std::string>;
-using MapSVec = std::map<std::string, std::vector<int>>; using MapSMap = std::map<std::string, std::map<std::string, int>>; using MapFloat = std::map<float, std::string>;
-using TpS = ch::time_point<ch::system_clock, ch::seconds>; using TpMs = ch::time_point<ch::system_clock, ch::milliseconds>; using TpNs = ch::time_point<ch::system_clock, ch::nanoseconds>; using TpUs = ch::time_point<ch::system_clock, ch::microseconds>; using TpMin = ch::time_point<ch::system_clock, ch::duration<int32_t, std::ratio<60>>>;
-using MapTp = std::map<TpS, int>; using MMapIS = std::multimap<int, std::string>; using MMapSS = std::multimap<std::string, int>; using UMapSI = std::unordered_map<std::string, int>; using UMapIS = std::unordered_map<int, std::string>; using UMMapIS = std::unordered_multimap<int, std::string>;
-using PairIS = std::pair<int, std::string>; using PairSP = std::pair<std::string, Pt>; using TupISD = std::tuple<int, std::string, double>; using TupNested = std::tuple<bool, std::vector<int>, Pt>;
-using DurDays = ch::duration<int64_t, std::ratio<86400>>; using DurH32 = ch::duration<int32_t, std::ratio<3600>>;
-using OptVec = std::optional<std::vector<int>>; using UPtrVec = std::unique_ptr<std::vector<std::string>>; using SPtrMap = std::shared_ptr<std::map<std::string, int>>;
-
-// (index, type, group)
-#define MODEL_TYPES(X) \
-	X(0, bool, 0) X(1, int8_t, 0) X(2, uint8_t, 0) X(3, int16_t, 0) X(4, uint16_t, 0) X(5, int32_t, 0) X(6, uint32_t, 0) X(7, int64_t, 0) X(8, uint64_t, 0) X(9, float, 0) X(10, double, 0) X(11, char, 0) \
-	X(12, std::string, 0) X(13, std::u16string, 0) X(14, std::u32string, 0) X(15, std::wstring, 0) X(16, Color, 0) X(17, Pt, 0) X(18, Derived, 0) X(19, External, 0) \
-	X(20, TpS, 0) X(21, TpMs, 0) X(22, TpNs, 0) X(23, TpUs, 0) X(24, TpMin, 0) X(25, ch::seconds, 0) X(26, ch::milliseconds, 0) X(27, ch::nanoseconds, 0) X(28, DurDays, 0) X(29, DurH32, 0) \
-	X(30, VecInt, 1) X(31, VecStr, 1) X(32, VecBool, 1) X(33, VecPt, 1) X(34, VecVecInt, 1) X(35, Bytes, 1) X(36, Chars, 1) X(37, VecBytes, 1) X(38, VecOptInt, 1) X(39, VecDbl, 1) X(40, VecU16, 1) \
-	X(41, std::deque<int>, 1) X(42, std::list<std::string>, 1) X(43, std::forward_list<int>, 1) X(44, A3, 1) X(45, A2Str, 1) X(46, std::valarray<double>, 1) X(47, std::bitset<9>, 1) X(48, std::set<int>, 1) X(49, std::multiset<int>, 1) \
-	X(50, std::unordered_set<std::string>, 1) X(51, std::unordered_multiset<int>, 1) X(52, std::queue<int>, 1) X(53, std::stack<std::string>, 1) X(54, std::priority_queue<int>, 1) X(55, std::set<std::string>, 1) \
-	X(56, MapSI, 2) X(57, MapIS, 2) X(58, MapDbl, 2) X(59, MapU64, 2) X(60, MapI8, 2) X(61, MapEnum, 2) X(62, MapWs, 2) X(63, MapU16, 2) X(64, MapSVec, 2) X(65, MapSMap, 2) X(66, MapFloat, 2) X(67, MapTp, 2) \
-	X(68, MMapIS, 2) X(69, MMapSS, 2) X(70, UMapSI, 2) X(71, UMapIS, 2) X(72, UMMapIS, 2) X(73, PairIS, 2) X(74, PairSP, 2) X(75, TupISD, 2) X(76, TupNested, 2) \
-	X(77, std::optional<int>, 2) X(78, std::optional<std::string>, 2) X(79, std::optional<Pt>, 2) X(80, OptVec, 2) X(81, std::unique_ptr<Pt>, 2) X(82, std::unique_ptr<int>, 2) X(83, UPtrVec, 2) X(84, std::shared_ptr<std::string>, 2) X(85, SPtrMap, 2) X(86, std::shared_ptr<Derived>, 2)
-
-constexpr size_t group_first[] = { 0, 30, 56, 87 };
-
-template <class F> void with_model(size_t idx, F&& f) {
-	switch (idx) {
-#define X(i, T, g) case i: if constexpr (g == C01_GROUP) { f(Tag<T>{}, #T); } break;
-		MODEL_TYPES(X)
-#undef X
-	default: break;
-	}
-}
 
 // XML cannot carry map keys that are not XML Names (recorded finding KF-44): integer / floating / date keys are not generated for XML.
 template <class T> struct is_non_name_key_map : std::false_type {};
